@@ -184,7 +184,7 @@ check("C26",
 
 FW_REAL = ["Firewall (Drop, conntrack, rule tables built through real config parsing), Interface.reloadFirewall via config reload, real HostInfo/CachedCertificate/CAPool from real handshakes, the real inbound/outbound packet paths for the C17 real-path events"]
 FW_STUB = ["peers' application traffic (firewall.Packet tuples drawn from the tape)", "none for the routine-local conntrack cache: the real ConntrackCacheTicker goroutine runs on the bubble clock", "UDP socket, tun, clock, randomness as in engine A"]
-FW_RULE = "one run = victim node with 1-2 overlay networks, optional unsafe network, default_local_cidr_any on/off, small (1-22 s) or default conntrack timeouts, optional routine-local cache, rules version optionally preset near its wrap, 2-4 peers (names, groups g1-g3, two CAs, multi-address incl. addresses outside the victim's networks, unsafe networks), 0-5 generated rules per direction (single ports, ranges, in one run of 16 also every-port ranges; sibling rules), then 80-280 (thorough: up to 1800) steps of packets through Drop (new tuples, repeated tuples in both directions, tuples claimed by another peer), clock advances around each timeout, reloads (identical, remove a rule, add a rule, new rule set, default_local_cidr_any flipped, re-issued certificate with other unsafe networks, only the conntrack timeouts changed) each followed by 0-3 packets of recent flows mostly in the reply direction, and real-path events (byzantine peer sending crafted inner packets through its tunnel; the victim sending packets with arbitrary addresses); distinct = distinct abstract trace hash; non-trivial = packets passed both by rule and by tracking and something was refused as expired, stale or address-inauthentic"
+FW_RULE = "one run = victim node with 1-2 overlay networks, optional unsafe network, default_local_cidr_any on/off, small (1-22 s) or default conntrack timeouts, optional routine-local cache, rules version optionally preset near its wrap, 2-4 peers (names, groups g1-g3, two CAs, multi-address incl. addresses outside the victim's networks, unsafe networks), 0-5 generated rules per direction (single ports, ranges, in one run of 16 also every-port ranges; sibling rules), then 80-280 (thorough: up to 1800) steps of packets through Drop (new tuples, repeated tuples in both directions, tuples claimed by another peer), clock advances around each timeout, reloads (identical, remove a rule, add a rule, new rule set, default_local_cidr_any flipped, re-issued certificate with other unsafe networks, only the conntrack timeouts changed, back to the rule sets before the last change) each followed by 0-3 packets of recent flows mostly in the reply direction, and real-path events (inner packets may be IPv6 with IPv4-mapped addresses; a peer may hold no address inside the victim's networks) (byzantine peer sending crafted inner packets through its tunnel; the victim sending packets with arbitrary addresses); distinct = distinct abstract trace hash; non-trivial = packets passed both by rule and by tracking and something was refused as expired, stale or address-inauthentic"
 
 def fw_check(pid, **kw):
     kw.setdefault("pkg", "nebula")
@@ -292,7 +292,7 @@ check("C34",
     level_text="Seeded search over stimulus/fault schedules with real goroutines: any race-detector report whose access stacks include nebula code, any stimulus call (reload, close, API, delivery, stop) that has not returned after 30 s of simulated time, and any run that stops making progress in real time (goroutines waiting for mutexes: lock cycle or lost wake-up) is a violation. The schedule of stimuli, faults and clock steps is replayable from the tape; the order in which the Go runtime runs goroutines inside one burst is not controlled, so a replay re-executes the same schedule (up to 3 attempts) rather than the same instruction interleaving. Evidence, not proof. C34.gosched (engine B, package nebula, deterministic): the roles of each node of a fault-free pair (udp reader, tun reader, handshake timer, connection-manager tick, control call) interleaved at every lock acquisition of the HostMap / HandshakeManager / per-handshake / LightHouse / RemoteList / RelayState / conntrack mutexes; all remaining tasks waiting for locks held by parked tasks is a deadlock (lock-order inversion, double acquisition), reported with the exact interleaving and replayed exactly.",
     level_note="Trusted: the Go race detector (happens-before based: it reports an unsynchronised pair whenever both accesses occur in a run, independent of their observed order), synctest quiescence, the driver. Not explored: more than one reader routine per node (the test socket supports one), the Linux batch/offload paths, ssh/stats/dns listeners.",
     real=D_REAL, stub=D_STUB,
-    assumptions=["goroutine order inside a burst is chosen by the Go runtime (GOMAXPROCS=4), not by the tape", "routines=1"],
+    assumptions=["goroutine order inside a burst is chosen by the Go runtime (GOMAXPROCS=4), not by the tape", "one udp reader per node unless the run switches the test doubles to one reader per routine (half of the runs)"],
 )
 
 check("C49",
@@ -300,7 +300,7 @@ check("C49",
     quick=tier(400, 45, shrink_s=20, recheck=0), thorough=tier(40000, 1500, shrink_s=60, recheck=0),
     technique="deterministic-schedule simulation of live nodes: 2-4 real nebula instances in one synctest bubble driven by a seeded stimulus/fault schedule in which Control.Stop is injected at tape-chosen points (before Start, while handshaking, with live or relayed tunnels, in the same burst as a reload or other control calls, twice concurrently, followed or not by a restart); oracles on Stop/Wait return, device and socket closure, and the goroutines left in the bubble",
     rule="one run = 2-4 live nodes for 3-13 s (thorough: 5-45 s) of simulated time with stop-heavy stimulus mix; every node is stopped by the end; distinct = distinct (topology, stimulus-kind set, delivery) abstract hash; non-trivial = at least one Stop hit a node that held pending or established tunnels",
-    level_text="Seeded search over stop points: for every stopped node Control.Stop has returned by the next quiescence, Control.Wait returns within 5 s of simulated time, the tun is closed, the socket swallows writes, State is Stopped; after all nodes are stopped and 90 s passed no goroutine other than the driver remains in the bubble (any goroutine, whoever started it); a Stop that blocks on a lock forever is caught by the real-time watchdog (class hang). Evidence, not proof. C49.sched (component, package nebula): the delayed-work scheduler behind Punchy with queue sizes 1-64, 0-200 items with 0-2 s delays, its worker fast, slow or absent, and its context cancelled at a tape-chosen instant; 10 s later no goroutine of the bubble may remain (a timer that fires after the stop must not wait for a worker that is gone).",
+    level_text="Seeded search over stop points: for every stopped node Control.Stop has returned by the next quiescence, Control.Wait returns within 5 s of simulated time, the tun is closed, the socket swallows writes, State is Stopped; after all nodes are stopped and 90 s passed no goroutine other than the driver remains in the bubble (any goroutine, whoever started it); a Stop that blocks on a lock forever is caught by the real-time watchdog (class hang). Evidence, not proof. C49.sched (component, package nebula): the delayed-work scheduler behind Punchy with queue sizes 1-64, 0-200 items with 0-2 s delays, its worker fast, slow or absent, and its context cancelled at a tape-chosen instant; 10 s later no goroutine of the bubble may remain (a timer that fires after the stop must not wait for a worker that is gone). C49.query (engine A node in the state right after Stop: context cancelled, no lighthouse query worker): with handshakes.query_buffer 1-4 and more pending handshakes than that due for their lighthouse re-query in one timer tick, the tick — which the handshake manager finishes before it notices the cancellation — must return.",
     level_note="Trusted: synctest's goroutine accounting (runtime.Stack bubble labels), the driver. Socket closure is observed through the test double (a closed TesterConn discards injected packets). ssh/stats/dns listeners are not configured.",
     real=D_REAL, stub=D_STUB,
     assumptions=["goroutine order inside a burst is chosen by the Go runtime (GOMAXPROCS=4), not by the tape", "routines=1"],
